@@ -135,8 +135,16 @@ func (m *Merger) mergeTables(colDiff *diff.ColDiff, mergeChan chan<- *Merge, err
 			counter[pkSum]++
 		}
 	}
+	// when a layer adds or removes (renames) columns, a row whose bytes equal the
+	// base row still has to be brought to the merged layout by the resolver
+	layoutChanged := false
+	for i := range colDiff.Added {
+		if len(colDiff.Added[i]) > 0 || len(colDiff.Removed[i]) > 0 {
+			layoutChanged = true
+		}
+	}
 	for _, obj := range merges {
-		if obj.Base != nil {
+		if obj.Base != nil && !layoutChanged {
 			noChanges := true
 			for _, b := range obj.Others {
 				if !bytes.Equal(b, obj.Base) {
